@@ -44,10 +44,11 @@ type State struct {
 	lastRange *ssa.Range
 	defers []*deferredCall
 	chans  *chanState
+	gen    string // suffix of lazily declared heaps/ghosts: changes after a callback of unknown effect
 }
 
 func (s *State) clone() *State {
-	n := &State{pc: s.pc, next: s.next, dead: s.dead, lastRange: s.lastRange, chans: s.chans.clone(),
+	n := &State{pc: s.pc, next: s.next, dead: s.dead, lastRange: s.lastRange, chans: s.chans.clone(), gen: s.gen,
 		iters: make(map[*ssa.Range]string, len(s.iters)), defers: append([]*deferredCall{}, s.defers...),
 		locals: make(map[*ssa.Alloc]string, len(s.locals)),
 		heaps:  make(map[string]string, len(s.heaps)),
@@ -126,6 +127,7 @@ type FnGen struct {
 	boundCallees map[string]bool
 	selectN      int
 	callOrd      map[ssa.Instruction]callOrdinal
+	iterOrd      map[ssa.Instruction]int
 }
 
 type callOrdinal struct {
@@ -170,6 +172,13 @@ func (g *FnGen) heap(s *State, sort string) string {
 	if h, ok := s.heaps[sort]; ok {
 		return h
 	}
+	if s.gen != "" {
+		// first read of this heap after a callback of unknown effect: unconstrained
+		n := heapName(sort) + "!0" + s.gen
+		g.declare(n, "(Array Ref "+sort+")")
+		g.c.reg.heapSorts[sort] = true
+		return n
+	}
 	n := heapName(sort) + "!0"
 	if _, done := g.declOf[n]; !done {
 		g.declare(n, "(Array Ref "+sort+")")
@@ -201,9 +210,19 @@ func (g *FnGen) ghost(s *State, name string) string {
 	if !ok {
 		panic(genErr("unknown ghost %s", name))
 	}
-	n := "G_" + name + "!0"
-	g.declare(n, g.c.specSort(gd.Sort, nil).sort)
+	n := "G_" + name + "!0" + s.gen
+	g.declare(n, g.ghostSort(gd))
 	return n
+}
+
+func (g *FnGen) ghostSort(gd GhostDecl) string {
+	if gd.File != nil {
+		saved := g.c.curFile
+		g.c.curFile = gd.File
+		defer func() { g.c.curFile = saved }()
+		return g.c.specSort(gd.Sort, g.c.typesPkgs[gd.File.PkgPath]).sort
+	}
+	return g.c.specSort(gd.Sort, nil).sort
 }
 
 // ---------- memory access ----------
@@ -615,6 +634,11 @@ func (g *FnGen) merge(b *ssa.BasicBlock, ins []*State) *State {
 		return live[0].clone()
 	}
 	out := live[0].clone()
+	for _, s := range live {
+		if s.gen != "" {
+			out.gen = s.gen
+		}
+	}
 	pcs := make([]string, len(live))
 	for i, s := range live {
 		pcs[i] = s.pc
@@ -718,6 +742,7 @@ func (g *FnGen) run() {
 	}
 	g.findLoops()
 	g.numberCalls()
+	g.numberIterCalls()
 	st := &State{pc: "true", locals: map[*ssa.Alloc]string{}, heaps: map[string]string{}, ghosts: map[string]string{}, names: map[string]*ssa.Alloc{}, iters: map[*ssa.Range]string{}}
 	g.declare("next!0", "Int")
 	st.next = "next!0"
@@ -822,6 +847,13 @@ func (g *FnGen) loopHead(s *State, li *loopInfo) {
 		}
 	}
 	g.havocChans(s, li)
+	for b := range li.blocks {
+		for _, ins := range b.Instrs {
+			if ci, ok := ins.(ssa.CallInstruction); ok && g.isCallbackParam(ci.Common().Value) {
+				s.gen = fmt.Sprintf("!cbl%d", li.ordinal)
+			}
+		}
+	}
 	var allocList []*ssa.Alloc
 	for a := range assigned {
 		if _, ok := s.locals[a]; ok {
@@ -871,7 +903,7 @@ func (g *FnGen) loopHead(s *State, li *loopInfo) {
 	}
 	for name := range ghostsMod {
 		gd := g.c.ghosts[name]
-		s.ghosts[name] = g.fresh("G_"+name+"_h", g.c.specSort(gd.Sort, nil).sort)
+		s.ghosts[name] = g.fresh("G_"+name+"_h", g.ghostSort(gd))
 	}
 	g.assume(s, and(tinv...))
 	env = g.newEnv(s, g.entry)
@@ -977,8 +1009,39 @@ func (g *FnGen) scanEffects(ins ssa.Instruction, assigned map[*ssa.Alloc]bool, h
 		if g.intrinsicSorts(com, heapSorts) {
 			return
 		}
+		if g.isCallbackParam(com.Value) && !com.IsInvoke() {
+			g.callbackEffects(heapSorts, ghosts, allocs)
+			return
+		}
 		var fc *FuncContract
 		var ct *callTarget
+		if ifc, _, ok := g.iterCallSite(com); ok {
+			// iterator call: the effects of the closure it is given
+			for i, a := range com.Args {
+				_ = i
+				if mc, ok := a.(*ssa.MakeClosure); ok {
+					fn := mc.Fn.(*ssa.Function)
+					cfc := g.c.contracts[g.c.fnKey(fn)]
+					if cfc == nil {
+						continue
+					}
+					cct := &callTarget{fc: cfc, key: g.c.fnKey(fn), sig: fn.Signature, fn: fn, caps: map[string]capturedVar{}}
+					var cargs []TVal
+					for i := 0; i < fn.Signature.Params().Len(); i++ {
+						cct.names = append(cct.names, fn.Signature.Params().At(i).Name())
+						pt := fn.Signature.Params().At(i).Type()
+						cargs = append(cargs, TVal{term: "?", ty: Ty{sort: g.c.reg.sortOf(pt), gt: pt}})
+					}
+					for i, fv := range fn.FreeVars {
+						cct.caps[fv.Name()] = capturedVar{"?", mc.Bindings[i].Type().(*types.Pointer).Elem()}
+					}
+					for _, m := range cfc.Modifies {
+						g.locsetSorts(cfc, cct, cargs, m, heapSorts, ghosts)
+					}
+				}
+			}
+			_ = ifc
+		}
 		if mc, ok := com.Value.(*ssa.MakeClosure); ok && !com.IsInvoke() {
 			fn := mc.Fn.(*ssa.Function)
 			fc = g.c.contracts[g.c.fnKey(fn)]
@@ -1195,7 +1258,7 @@ func (g *FnGen) exec(s *State, ins ssa.Instruction) {
 		// only from && / || : pick by predecessor pc — handled via edge conditions
 		g.execPhi(s, x)
 	case *ssa.ChangeType:
-		g.vals[x] = &Val{term: g.term(s, x.X)}
+		g.vals[x] = &Val{term: g.changeType(g.term(s, x.X), x.X.Type(), x.Type())}
 	case *ssa.ChangeInterface:
 		g.vals[x] = &Val{term: g.term(s, x.X)}
 	case *ssa.Convert:
@@ -1408,6 +1471,24 @@ func (g *FnGen) convert(s *State, v string, from, to types.Type) string {
 	panic(genErr("unsupported conversion %s -> %s", from, to))
 }
 
+// changeType: conversion between types with identical underlying types; distinct named struct types have
+// distinct SMT sorts, so the value is rebuilt field by field.
+func (g *FnGen) changeType(v string, from, to types.Type) string {
+	fs, ts := g.c.reg.sortOf(from), g.c.reg.sortOf(to)
+	if fs == ts {
+		return v
+	}
+	fi, ti := g.c.reg.structOf(from), g.c.reg.structOf(to)
+	if fi == nil || ti == nil || len(fi.fields) != len(ti.fields) {
+		panic(genErr("unsupported type change %s -> %s", from, to))
+	}
+	var vals []string
+	for i, f := range fi.fields {
+		vals = append(vals, g.changeType(app(f.acc, v), f.typ, ti.fields[i].typ))
+	}
+	return g.bind("conv", ts, g.c.reg.mk(ti, vals))
+}
+
 func (g *FnGen) makeIface(s *State, v string, t types.Type) string {
 	tid := intLit(int64(g.c.typeID(t)))
 	if g.c.reg.sortOf(t) == "Ref" {
@@ -1529,6 +1610,18 @@ func (g *FnGen) runHooks(s *State, ins ssa.Instruction, recv string, recvT types
 		if recv != "" {
 			env.vars["recv"] = TVal{term: recv, ty: Ty{sort: g.c.reg.sortOf(recvT), gt: recvT}}
 		}
+		// callresult / callresultN: what the hooked call returned
+		if cv, ok := ins.(ssa.Value); ok {
+			if v := g.vals[cv]; v != nil {
+				if tup, ok := cv.Type().(*types.Tuple); ok && len(v.tuple) == tup.Len() {
+					for i := 0; i < tup.Len(); i++ {
+						env.vars[fmt.Sprintf("callresult%d", i)] = TVal{term: v.tuple[i], ty: Ty{sort: g.c.reg.sortOf(tup.At(i).Type()), gt: tup.At(i).Type()}}
+					}
+				} else if v.term != "" {
+					env.vars["callresult"] = TVal{term: v.term, ty: Ty{sort: g.c.reg.sortOf(cv.Type()), gt: cv.Type()}}
+				}
+			}
+		}
 		if h.Ghost == "" {
 			for j, c := range env.conjuncts(h.E) {
 				g.addObl(s, "assert", fmt.Sprintf("assert@%s#%d[%d]", co.key, co.k, j+1), h.Src, h.Where, c)
@@ -1541,7 +1634,7 @@ func (g *FnGen) runHooks(s *State, ins ssa.Instruction, recv string, recvT types
 			panic(genErr("%s: unknown ghost %s", h.Where, h.Ghost))
 		}
 		v := env.eval(h.E)
-		s.ghosts[h.Ghost] = g.bind("G_"+h.Ghost, g.c.specSort(gd.Sort, nil).sort, v.term)
+		s.ghosts[h.Ghost] = g.bind("G_"+h.Ghost, g.ghostSort(gd), v.term)
 	}
 }
 
